@@ -15,6 +15,7 @@
                       NEW_COST_MODEL and LIMITS (ChiaDialect::new clears LIMITS under the new model)
      C11_run_runtime  the same for RuntimeDialect
      C11_bigstep      run_program succeeds with (cost, value) iff the big-step evaluator does
+     C11_bigstep_outcomes  the same for every outcome (errors included) except fuel exhaustion
      C11_op           every operator function of the dispatch tables: both calls succeed (any two
                       budgets) -> same value
      C11_unknown      the same for the unknown-operator rule
@@ -27,7 +28,7 @@
    keccak, under the new one), so no statement about the values INSIDE guards is made or true.
    [same_but_cost_model f f'] = f and f' agree on every flag except NEW_COST_MODEL and LIMITS. *)
 From Clvm Require Import Model.Machine Model.Dialect Model.BigStep Model.OpsUnknown Proofs.OpContractDefs
-  Proofs.DialectContracts Proofs.OpContractsMore2 Proofs.BigStepEquiv Proofs.CostModelIndep.
+  Proofs.DialectContracts Proofs.OpContractsMore2 Proofs.BigStepEquiv Proofs.BigStepErrors Proofs.CostModelIndep.
 Open Scope N_scope.
 
 Theorem C11_run : forall P f fuel1 fuel2 p e M1 M2 c1 v1 c2 v2,
@@ -52,6 +53,12 @@ Theorem C11_bigstep : forall d p e max_cost r,
   (exists fuel, run_program d fuel p e max_cost = Ok r) <->
   (exists fuel, run_program_big d fuel p e max_cost = Ok r).
 Proof. exact run_program_big_equiv. Qed.
+
+(* ... and has the same outcomes altogether: every result and every error except fuel exhaustion *)
+Theorem C11_bigstep_outcomes : forall d p e max_cost R, R <> Err OutOfFuel ->
+  ((exists fuel, run_program d fuel p e max_cost = R) <->
+   (exists fuel, run_program_big d fuel p e max_cost = R)).
+Proof. exact run_program_big_outcomes. Qed.
 
 Theorem C11_op : forall P, Forall op_cm_indep (all_ops P).
 Proof. exact all_ops_cm. Qed.
@@ -87,6 +94,7 @@ Print Assumptions C11_run.
 Print Assumptions C11_run_general.
 Print Assumptions C11_run_runtime.
 Print Assumptions C11_bigstep.
+Print Assumptions C11_bigstep_outcomes.
 Print Assumptions C11_op.
 Print Assumptions C11_unknown.
 Print Assumptions C11_dispatch.
